@@ -51,6 +51,14 @@ type ModuleSpec struct {
 	Structs  []string    `json:"structs"`  // additional plain structs (all fields int) to emit
 	ConstPkg []string    `json:"consts"`   // files whose integer constants are emitted (Consts module)
 	ConstSel []string    `json:"constsel"` // names to keep (empty = all evaluable)
+
+	// Extensions used by the Poller module (see polext.go).
+	BitTypes  []string          `json:"bittypes"`  // named unsigned integer types translated to `BitVec w` (w read from the declaration)
+	BitConsts []string          `json:"bitconsts"` // constants of those types to emit (values evaluated from the source)
+	PtrParams []PolPtrParamSpec `json:"ptrparams"` // pointer parameters whose kept fields are part of the threaded state
+	Externs   []string          `json:"externs"`   // receiver methods that are NOT translated: each call takes its result from the oracle
+	Opaque    []string          `json:"opaque"`    // plain functions f(x, ...) represented by their first argument (only inside extern arguments)
+	Isolated  bool              `json:"isolated"`  // an untranslatable construct makes THIS module's file a non-compiling stub instead of failing the whole run
 }
 
 type Spec struct {
@@ -59,6 +67,9 @@ type Spec struct {
 }
 
 func die(format string, a ...any) {
+	if polIsolating {
+		panic(polFailure{fmt.Sprintf(format, a...)})
+	}
 	fmt.Fprintf(os.Stderr, "go2lean: "+format+"\n", a...)
 	os.Exit(2)
 }
@@ -75,6 +86,7 @@ type tr struct {
 	curRet  string
 	named   []string // named results
 	structs map[string][]string
+	pol     *polState // nil unless the module uses the extensions of polext.go
 }
 
 func (t *tr) pos(n ast.Node) string { return t.fset.Position(n.Pos()).String() }
@@ -165,6 +177,9 @@ func (t *tr) expr(e ast.Expr) string {
 		case "true", "false":
 			return x.Name
 		case "nil":
+			if t.pol != nil {
+				return "Go.Error.nil"
+			}
 			return "Go.View.nil"
 		}
 		if x.Name == t.recv {
@@ -173,9 +188,16 @@ func (t *tr) expr(e ast.Expr) string {
 		return lname(x.Name)
 	case *ast.ParenExpr:
 		return "(" + t.expr(x.X) + ")"
+	case *ast.StarExpr:
+		if f, ok := t.polField(x); ok {
+			return "self." + f
+		}
 	case *ast.UnaryExpr:
 		switch x.Op {
 		case token.SUB:
+			if lit, ok := x.X.(*ast.BasicLit); ok && lit.Kind == token.INT && t.pol != nil {
+				return "(-" + t.expr(x.X) + ")"
+			}
 			return "(Go.neg " + t.expr(x.X) + ")"
 		case token.NOT:
 			return "(decide " + t.prop(e) + ")"
@@ -183,6 +205,12 @@ func (t *tr) expr(e ast.Expr) string {
 	case *ast.BinaryExpr:
 		if t.isBoolExpr(e) {
 			return "(decide " + t.prop(e) + ")"
+		}
+		if t.polIsBits(x.X) || t.polIsBits(x.Y) {
+			if v, ok := polBitOp(x.Op, t.expr(x.X), t.expr(x.Y)); ok {
+				return v
+			}
+			t.untr(x, "binary operator "+x.Op.String()+" on a bit value")
 		}
 		op := map[token.Token]string{
 			token.ADD: "Go.add", token.SUB: "Go.sub", token.MUL: "Go.mul", token.QUO: "Go.div",
@@ -194,6 +222,11 @@ func (t *tr) expr(e ast.Expr) string {
 		return "(" + op + " " + t.expr(x.X) + " " + t.expr(x.Y) + ")"
 	case *ast.SelectorExpr:
 		if id, ok := x.X.(*ast.Ident); ok {
+			if t.pol != nil && t.kinds[id.Name] == "ptr" {
+				if f, ok := t.polField(x); ok {
+					return "self." + f
+				}
+			}
 			if id.Name == t.recv {
 				for _, f := range t.ms.Fields {
 					if f.Name == x.Sel.Name {
@@ -300,10 +333,7 @@ func (t *tr) call(x *ast.CallExpr) string {
 			if t.mut[m] {
 				t.untr(x, "mutating method "+m+" used inside an expression")
 			}
-			args := []string{"self"}
-			for _, a := range x.Args {
-				args = append(args, t.expr(a))
-			}
+			args := t.polSiblingArgs(x, m)
 			return "(" + t.ms.Type + "." + m + " " + strings.Join(args, " ") + ")"
 		}
 	}
@@ -363,11 +393,15 @@ func (t *tr) block(stmts []ast.Stmt, rest func(ind string) string, ind string) s
 				val := "0"
 				kind := "int"
 				if vs.Type != nil {
-					switch leanType(vs.Type) {
-					case "Bool":
+					switch ty := t.ltype(vs.Type); {
+					case ty == "Bool":
 						val, kind = "false", "bool"
-					case "Go.View":
+					case ty == "Go.View":
 						val, kind = "Go.View.nil", "view"
+					case ty == "Go.Error":
+						val, kind = "Go.Error.nil", "err"
+					case strings.HasPrefix(ty, "BitVec "):
+						val, kind = "0", "bits"
 					}
 				}
 				if i < len(vs.Values) {
@@ -382,6 +416,9 @@ func (t *tr) block(stmts []ast.Stmt, rest func(ind string) string, ind string) s
 		}
 		return out + k()
 	case *ast.AssignStmt:
+		if out, ok := t.polAssign(x, ind, k); ok {
+			return out
+		}
 		if len(x.Lhs) != 1 || len(x.Rhs) != 1 {
 			t.untr(x, "multi-assignment")
 		}
@@ -436,6 +473,9 @@ func (t *tr) block(stmts []ast.Stmt, rest func(ind string) string, ind string) s
 		}
 		t.untr(x, "inc/dec target")
 	case *ast.ExprStmt:
+		if out, ok := t.polExprStmt(x, ind, k); ok {
+			return out
+		}
 		call, ok := x.X.(*ast.CallExpr)
 		if !ok {
 			t.untr(x, "expression statement")
@@ -455,10 +495,7 @@ func (t *tr) block(stmts []ast.Stmt, rest func(ind string) string, ind string) s
 		if !t.mut[m] {
 			return k() // pure call whose value is dropped
 		}
-		args := []string{"self"}
-		for _, a := range call.Args {
-			args = append(args, t.expr(a))
-		}
+		args := t.polSiblingArgs(call, m)
 		c := "(" + t.ms.Type + "." + m + " " + strings.Join(args, " ") + ")"
 		if t.rets[m] == "" {
 			return ind + "let self := " + c + "\n" + k()
@@ -490,6 +527,9 @@ func (t *tr) block(stmts []ast.Stmt, rest func(ind string) string, ind string) s
 		t.kinds = saved
 		return out
 	case *ast.ReturnStmt:
+		if out, ok := t.polReturn(x, ind); ok {
+			return out
+		}
 		res := []string{}
 		if len(x.Results) == 0 {
 			for _, n := range t.named {
@@ -517,6 +557,9 @@ func copyKinds(m map[string]string) map[string]string {
 
 // mutates reports whether the function body assigns to a receiver field or calls a mutating sibling.
 func (t *tr) mutates(fd *ast.FuncDecl, recv string) bool {
+	if t.pol != nil && t.polMutates(fd) {
+		return true
+	}
 	found := false
 	ast.Inspect(fd.Body, func(n ast.Node) bool {
 		switch x := n.(type) {
@@ -558,11 +601,26 @@ func (t *tr) fn(fd *ast.FuncDecl) string {
 	if isMethod {
 		params = append(params, "(self : "+t.ms.Type+")")
 	}
+	pidx := 0
+	if t.pol != nil {
+		t.pol.alias = map[string]*ast.SelectorExpr{}
+		t.pol.ptrIdx[name] = nil
+	}
 	for _, p := range fd.Type.Params.List {
-		ty := leanType(p.Type)
+		ty := t.ltype(p.Type)
 		for _, n := range p.Names {
+			pidx++
+			if t.polIsPtrParam(n.Name, p.Type) {
+				t.kinds[n.Name] = "ptr"
+				t.pol.ptrIdx[name] = append(t.pol.ptrIdx[name], pidx-1)
+				continue
+			}
 			params = append(params, "("+lname(n.Name)+" : "+ty+")")
 			switch {
+			case strings.HasPrefix(ty, "BitVec "):
+				t.kinds[n.Name] = "bits"
+			case ty == "Go.Error":
+				t.kinds[n.Name] = "err"
 			case ty == "Bool":
 				t.kinds[n.Name] = "bool"
 			case ty == "Go.View":
@@ -578,7 +636,7 @@ func (t *tr) fn(fd *ast.FuncDecl) string {
 	t.named = nil
 	if fd.Type.Results != nil {
 		for _, r := range fd.Type.Results.List {
-			ty := leanType(r.Type)
+			ty := t.ltype(r.Type)
 			if len(r.Names) == 0 {
 				rts = append(rts, ty)
 			}
@@ -589,6 +647,9 @@ func (t *tr) fn(fd *ast.FuncDecl) string {
 		}
 	}
 	ret := strings.Join(rts, " × ")
+	if t.pol != nil {
+		t.pol.nparams[name] = pidx
+	}
 	t.curMut = isMethod && t.mutates(fd, t.recv)
 	t.curRet = ret
 	t.mut[name] = t.curMut
@@ -653,6 +714,11 @@ func evalConst(e ast.Expr, env map[string]int64, iota int64) (int64, bool) {
 		}
 		v, ok := env[x.Name]
 		return v, ok
+	case *ast.SelectorExpr:
+		if id, ok := x.X.(*ast.Ident); ok && id.Name == "syscall" {
+			v, ok := polSyscallConsts[x.Sel.Name]
+			return v, ok
+		}
 	case *ast.ParenExpr:
 		return evalConst(x.X, env, iota)
 	case *ast.CallExpr: // conversions byte(..), Opcode(..), uint16(..)
@@ -756,6 +822,12 @@ func main() {
 		genAccess(root, out, as)
 	}
 	for _, ms := range spec.Modules {
+		polGuarded(ms, out, func() { genModule(root, out, ms) })
+	}
+}
+
+func genModule(root, out string, ms ModuleSpec) {
+	{
 		fset := token.NewFileSet()
 		var b strings.Builder
 		if len(ms.ConstPkg) > 0 {
@@ -790,7 +862,7 @@ func main() {
 			}
 			b.WriteString("\nend Sonic.Gen." + ms.Module + "\n")
 			write(filepath.Join(out, ms.Module+".lean"), b.String())
-			continue
+			return
 		}
 		path := filepath.Join(root, ms.File)
 		f, err := parser.ParseFile(fset, path, nil, 0)
@@ -799,7 +871,11 @@ func main() {
 		}
 		t := &tr{fset: fset, ms: ms, mut: map[string]bool{}, rets: map[string]string{}, isFn: map[string]bool{}, structs: map[string][]string{}}
 		b.WriteString(header(ms.File))
-		b.WriteString("import Sonic.Go.Prelude\nset_option linter.unusedVariables false\n\nnamespace Sonic.Gen." + ms.Module + "\n\n")
+		imports := "import Sonic.Go.Prelude\n"
+		if polUses(ms) {
+			imports += "import Sonic.Go.Error\n"
+		}
+		b.WriteString(imports + "set_option linter.unusedVariables false\n\nnamespace Sonic.Gen." + ms.Module + "\n\n")
 		// plain structs
 		for _, sn := range ms.Structs {
 			found := false
@@ -829,7 +905,9 @@ func main() {
 				die("untranslatable: struct %s not found in %s", sn, ms.File)
 			}
 		}
-		if ms.Type != "" {
+		if polUses(ms) {
+			polInit(t, root, f, &b)
+		} else if ms.Type != "" {
 			// check every kept field exists in the Go struct with an integer/bool type
 			goFields := map[string]string{}
 			for _, d := range f.Decls {
